@@ -329,8 +329,50 @@ fn text_vals(max: usize, thorough: bool) -> Vec<Val> {
         let s = ascii_of(n, 7);
         v.push(Val::both(&format!("rep-{}-{n}", szc_of(n)), &sql_text(&s), OV::Text(s)).sized(n, true));
     }
+    // characters of every encoded width placed at every alignment relative to a TOAST chunk boundary:
+    // `cut-w<W>-o<O>-b<K>`: ASCII up to byte 4000*K - O, then ONE W-byte character (O of its bytes lie before
+    // the boundary: O = 0 starts exactly on it, O = 1..W-1 straddle it), then a short ASCII tail.
+    for (k, tier) in [(1usize, 0u8), (2, 1), (3, 1), (5, 1)] {
+        for (w, c) in WIDTH_CHARS.iter().enumerate().map(|(i, c)| (i + 1, *c)) {
+            for o in 0..w {
+                let n = TOAST_CHUNK * k - o + w + 5;
+                if n > max || (tier == 1 && !thorough) {
+                    continue;
+                }
+                let mut s = ascii_of(TOAST_CHUNK * k - o, 21);
+                s.push(c);
+                s.push_str(&ascii_of(5, 22));
+                debug_assert_eq!(s.len(), n);
+                let mut x = Val::both(&format!("cut-w{w}-o{o}-b{k}"), &sql_text(&s), OV::Text(s)).sized(n, false);
+                x.tier = tier;
+                v.push(x);
+            }
+        }
+    }
+    // text made of W-byte characters only after P ASCII bytes, long enough to cross 3 (thorough: 6) boundaries:
+    // `run-w<W>-p<P>-<bytes>`; the alignment differs from boundary to boundary (4000 % 3 = 1, 8000 % 3 = 2 ...)
+    for (chunks, tier) in [(3usize, 0u8), (6, 1)] {
+        for (w, c) in WIDTH_CHARS.iter().enumerate().map(|(i, c)| (i + 1, *c)).skip(1) {
+            for p in 0..w {
+                let count = (TOAST_CHUNK * chunks + 40 - p) / w;
+                let n = p + count * w;
+                if n > max || (tier == 1 && !thorough) {
+                    continue;
+                }
+                let mut s = ascii_of(p, 23);
+                for _ in 0..count {
+                    s.push(c);
+                }
+                let mut x = Val::both(&format!("run-w{w}-p{p}-{n}"), &sql_text(&s), OV::Text(s)).sized(n, false);
+                x.tier = tier;
+                v.push(x);
+            }
+        }
+    }
     v
 }
+/// one character per UTF-8 encoded width 1..4
+const WIDTH_CHARS: [char; 4] = ['q', 'é', '日', '😀'];
 
 fn blob_vals(thorough: bool) -> Vec<Val> {
     let b = |class: &str, bytes: Vec<u8>| Val::both(class, &sql_blob(&bytes), OV::Blob(bytes)).undoc();
@@ -671,7 +713,21 @@ fn types(thorough: bool) -> Vec<Ty> {
         ],
         0,
     );
-    add("varchar(30000)", "VARCHAR(30000)", text_vals(20000, thorough), 0);
+    // quick tier: the chunk-boundary alignment values run on the TEXT column only (same storage path)
+    add(
+        "varchar(30000)",
+        "VARCHAR(30000)",
+        text_vals(20000, thorough)
+            .into_iter()
+            .map(|mut v| {
+                if v.class.starts_with("cut-") || v.class.starts_with("run-") {
+                    v.tier = 1;
+                }
+                v
+            })
+            .collect(),
+        0,
+    );
     add("varchar", "VARCHAR", text_vals(20000, false), 1);
     add("text", "TEXT", text_vals(usize::MAX, thorough), 0);
     add("blob", "BLOB", blob_vals(thorough), 0);
@@ -1753,7 +1809,7 @@ impl Check for C11 {
         let mut s = Spec::new(
             "C11",
             "exploration",
-            "exhaustive product: every column type CREATE TABLE accepts and the README documents (BOOLEAN, SMALLINT, INT, BIGINT, REAL, DOUBLE, DECIMAL, CHAR(n), VARCHAR(n), TEXT, BLOB, DATE, TIME, TIMESTAMP, TIMESTAMPTZ, INTERVAL, UUID, JSON, JSONB, VECTOR(1/2/70/300), MACADDR, INET, POINT, BOX, CIRCLE and the README aliases INTEGER, INT2, INT4, INT8, FLOAT, FLOAT4, FLOAT8, DOUBLE PRECISION, BOOL) x its boundary value set (type min/max and the neighbours outside, +-0, NaN, +-inf, subnormal, empty, 1 char, multibyte, quotes, NUL, a BLOB that is valid UTF-8, a BLOB with 00/FF, a 17-byte BLOB starting with FE, byte sizes {0,1,999,1000,1001,3999,4000,4001,8001,20000} (+30 more sizes and 2 MiB in thorough) around TOAST_THRESHOLD=1000 / TOAST_CHUNK_SIZE=4000, date/time range ends, UUID all-0/all-F, nested JSON, NULL) x {SQL literal, execute_with_params with the matching OwnedValue variant} x {INSERT, UPDATE of an existing row: every ordered pair of size-class representatives {inline 10, inline 1000, 1 chunk 1001, 1 chunk 4000, 2 chunks, 3 chunks, 5 chunks}, equal-size rewrites, every value over an ordinary / a two-chunk / a NULL cell} x {PRIMARY KEY, no key} x {read now, read after reopen}; each case is read by id lookup, in the full scan, and by the single-column projection with and without WHERE. A case is distinct by construction (one row of one batch); all cases are non-trivial (a value is written and read).",
+            "exhaustive product: every column type CREATE TABLE accepts and the README documents (BOOLEAN, SMALLINT, INT, BIGINT, REAL, DOUBLE, DECIMAL, CHAR(n), VARCHAR(n), TEXT, BLOB, DATE, TIME, TIMESTAMP, TIMESTAMPTZ, INTERVAL, UUID, JSON, JSONB, VECTOR(1/2/70/300), MACADDR, INET, POINT, BOX, CIRCLE and the README aliases INTEGER, INT2, INT4, INT8, FLOAT, FLOAT4, FLOAT8, DOUBLE PRECISION, BOOL) x its boundary value set (type min/max and the neighbours outside, +-0, NaN, +-inf, subnormal, empty, 1 char, multibyte, quotes, NUL, a BLOB that is valid UTF-8, a BLOB with 00/FF, a 17-byte BLOB starting with FE, byte sizes {0,1,999,1000,1001,3999,4000,4001,8001,20000} (+30 more sizes and 2 MiB in thorough) around TOAST_THRESHOLD=1000 / TOAST_CHUNK_SIZE=4000, TEXT with one 1/2/3/4-byte character at every alignment (0..width-1 of its bytes before the boundary) to chunk boundary 1 (2, 3 and 5 in thorough) and 12 KB (24 KB) runs of 2/3/4-byte characters after 0..width-1 ASCII bytes that cross boundaries 1-3 (1-6), together at every alignment, date/time range ends, UUID all-0/all-F, nested JSON, NULL) x {SQL literal, execute_with_params with the matching OwnedValue variant} x {INSERT, UPDATE of an existing row: every ordered pair of size-class representatives {inline 10, inline 1000, 1 chunk 1001, 1 chunk 4000, 2 chunks, 3 chunks, 5 chunks}, equal-size rewrites, every value over an ordinary / a two-chunk / a NULL cell} x {PRIMARY KEY, no key} x {read now, read after reopen}; each case is read by id lookup, in the full scan, and by the single-column projection with and without WHERE. A case is distinct by construction (one row of one batch); all cases are non-trivial (a value is written and read).",
         );
         s.assumptions = &[
             "expected values are computed by the harness (own civil-date arithmetic, own JSON tree; JSONB read-backs are decoded with turdb::records::JsonbView, which is trusted)",
